@@ -266,3 +266,70 @@ def materialise_options(opts: dict) -> dict:
     if "output_datetime_class" in out:
         out["output_datetime_class"] = DatetimeClassType(out["output_datetime_class"])
     return out
+
+
+# ---------------------------------------------------------------- members named exactly like a class their type refers to
+HIDE_DEFS = {
+    "Address": ({"type": "object", "properties": {"street": {"type": "string"}}, "required": ["street"]}, {"street": "x"}),
+    "Pet": ({"type": "object", "properties": {"name": {"type": "string"}, "age": {"type": "integer"}}, "required": ["name"]}, {"name": "n", "age": 3}),
+    "Item": ({"type": "object", "properties": {"sku": {"type": "integer"}}}, {"sku": 1}),
+}
+
+
+def _ref(d: str) -> dict:
+    return {"$ref": f"#/definitions/{d}"}
+
+
+def hide_shapes(d: str, inst) -> list[tuple[str, dict, Any]]:
+    """(shape name, schema, conforming value): the $ref to definition `d` sits 1, 2 or 3 levels
+    inside the member's type"""
+    return [
+        ("depth1_ref", _ref(d), inst),
+        ("depth2_union_null", {"anyOf": [_ref(d), {"type": "null"}]}, inst),
+        ("depth2_list", {"type": "array", "items": _ref(d)}, [inst]),
+        ("depth2_nullable_list", {"type": ["array", "null"], "items": _ref(d)}, [inst, inst]),
+        ("depth2_dict", {"type": "object", "additionalProperties": _ref(d)}, {"k": inst}),
+        ("depth3_dict_of_list", {"type": "object", "additionalProperties": {"type": "array", "items": _ref(d)}}, {"k": [inst]}),
+        ("depth3_list_of_union", {"type": "array", "items": {"anyOf": [_ref(d), {"type": "string"}]}}, [inst, "s"]),
+        ("depth3_list_of_list", {"type": "array", "items": {"type": "array", "items": _ref(d)}}, [[inst]]),
+        ("depth3_list_of_dict", {"type": "array", "items": {"type": "object", "additionalProperties": _ref(d)}}, [{"k": inst}]),
+    ]
+
+
+def hiding_document(rng: Rng) -> tuple[dict, dict, list[str]]:
+    """A document whose members are named exactly like the class their type refers to, with one
+    conforming instance. Returns (document, instance, features)."""
+    names = rng.sample(list(HIDE_DEFS), rng.range(1, 3))
+    props: dict[str, Any] = {}
+    inst: dict[str, Any] = {}
+    required = []
+    feats = []
+    for d in names:
+        schema, value = HIDE_DEFS[d]
+        shape, s, v = rng.choice(hide_shapes(d, value))
+        props[d] = s
+        inst[d] = v
+        feats.append("hide:" + shape)
+        if rng.chance(1, 2):
+            required.append(d)
+    if rng.chance(1, 2):
+        props["note"] = {"type": "string"}
+        inst["note"] = "t"
+    doc: dict[str, Any] = {"title": "Model", "type": "object", "properties": props, "definitions": {d: HIDE_DEFS[d][0] for d in names}}
+    if required:
+        doc["required"] = required
+    # a definition with a member named like another definition
+    if len(names) > 1 and rng.chance(1, 2):
+        a, b = names[0], names[1]
+        shape, s, v = rng.choice(hide_shapes(b, HIDE_DEFS[b][1]))
+        da = json_copy(HIDE_DEFS[a][0])
+        da["properties"][b] = s
+        doc["definitions"][a] = da
+        feats.append("hide_in_definition:" + shape)
+    return doc, inst, feats
+
+
+def json_copy(x):
+    import json
+
+    return json.loads(json.dumps(x))
